@@ -18,7 +18,7 @@ from .model import Program, FunctionInfo, ClassInfo, ModuleInfo, AnalysisError, 
 from .values import *  # noqa: F401,F403
 from .extapi import is_bool_expr
 from .values import (Val, Num, StrV, NoneV, NONE, BoolV, CondV, TupleV, ListV, DictV, SetV, SliceV, ObjV,
-                     ClassV, FuncV, ExtV, BoundBuiltin, OpaqueV, SigParamV, SignatureV, Unsupported, PyFuncV,
+                     ClassV, FuncV, ExtV, BoundBuiltin, OpaqueV, SigParamV, SignatureV, Unsupported, PyFuncV, DispatchV,
                      DimensionError, UNITS, UNIT_SYMS, F, NONE_S, fresh_index, mk_ite)
 
 MAX_DEPTH = 14
@@ -27,9 +27,10 @@ MAX_UNROLL = 64
 
 class Raised(Exception):
     """A definite `raise` on the current (decided) path."""
-    def __init__(self, exc_name, node=None, msg=None):
+    def __init__(self, exc_name, node=None, msg=None, origin=None):
         super().__init__(f"{exc_name}: {msg}" if msg else exc_name)
         self.exc_name, self.node, self.msg = exc_name, node, msg
+        self.origin = origin if origin is not None else (msg.split(":", 1)[0] if msg and ":" in msg and " " not in msg.split(":", 1)[0] else None)
 
 
 class Outcome:
@@ -447,7 +448,10 @@ class Evaluator:
         if isinstance(s, (ast.FunctionDef,)):
             sub = FunctionInfo(fr.fi.module, fr.fi.qualname + ".<locals>." + s.name, s, None, "nested",
                                [ast.unparse(d) for d in s.decorator_list])
-            fr.env[s.name] = FuncV(sub, closure=fr)
+            fv = FuncV(sub, closure=fr)
+            for d in reversed(s.decorator_list):
+                fv = self.apply(self.eval(d, fr), [fv], {}, fr, d)
+            fr.env[s.name] = fv
             return None
         if isinstance(s, (ast.Import, ast.ImportFrom)):
             for a in s.names:
@@ -647,7 +651,7 @@ class Evaluator:
                 return
             obj.attrs[name] = v
             return
-        if isinstance(obj, FuncV):
+        if isinstance(obj, (FuncV, DispatchV, PyFuncV)):
             return    # func.__name__ = ... bookkeeping
         if isinstance(obj, Num) and name == "imaginary":
             return
@@ -1297,6 +1301,13 @@ class Evaluator:
             return self.ext.call_method(self, fn.recv, fn.name, args, kwargs, fr, node)
         if isinstance(fn, PyFuncV):
             return fn.fn(self, args, kwargs, fr, node)
+        if isinstance(fn, DispatchV):
+            first = args[0] if args else None
+            key = None
+            if isinstance(first, Num) and first.backend == "dask" or getattr(first, "backend", None) == "dask":
+                key = "dask.array.Array"
+            impl = fn.registry.get(key, fn.default) if key else fn.default
+            return self.apply(impl, args, kwargs, fr, node)
         if isinstance(fn, self.ext.PolyV):
             x = args[0]
             return Num(fn.expr(x.expr), kind="number", shape=getattr(x, "shape", None), isfloat=True)
